@@ -23,6 +23,7 @@ import (
 	"database/sql/driver"
 	"errors"
 	"fmt"
+	"sync"
 	"time"
 
 	"seata.apache.org/seata-go/pkg/datasource/sql/types"
@@ -38,10 +39,12 @@ var xaConnTimeout time.Duration
 type XAConn struct {
 	*Conn
 
-	tx                 driver.Tx
-	xaResource         xa.XAResource
-	xaBranchXid        *XABranchXid
-	xaActive           bool
+	tx          driver.Tx
+	xaResource  xa.XAResource
+	xaBranchXid *XABranchXid
+	xaActive    bool
+	// what the two-phase hold-timeout checker needs to know, readable from its goroutine
+	holdState          xaHoldState
 	rollBacked         bool
 	branchRegisterTime time.Time
 	prepareTime        time.Time
@@ -165,6 +168,7 @@ func (c *XAConn) BeginTx(ctx context.Context, opts driver.TxOptions) (driver.Tx,
 		// from here on the connection belongs to a branch in phase one: the two-phase hold timeout, which
 		// looks at kept connections, must not take it for a prepared branch nobody came back for
 		c.xaActive = true
+		c.holdState.enterPhaseOne()
 		c.keepIfNecessary()
 
 		if err = c.start(ctx); err != nil {
@@ -324,6 +328,7 @@ func (c *XAConn) cleanXABranchContext() {
 	c.branchRegisterTime = time.Now().Add(h)
 	c.prepareTime = time.Now().Add(h)
 	c.xaActive = false
+	c.holdState.leavePhaseOne(c.prepareTime)
 	if !c.isConnKept {
 		c.xaBranchXid = nil
 	}
@@ -400,6 +405,7 @@ func (c *XAConn) Commit(ctx context.Context) error {
 		return c.commitErrorHandle(ctx, err)
 	}
 	c.prepareTime = now
+	c.holdState.leavePhaseOne(now)
 	// phase one of this branch is over: the connection is not inside an active branch any more
 	c.xaActive = false
 	return nil
@@ -464,4 +470,32 @@ func (c *XAConn) XaRollback(ctx context.Context, xaXid XAXid) error {
 	err := c.xaResource.Rollback(ctx, xaXid.String())
 	c.releaseIfNecessary()
 	return err
+}
+
+// xaHoldState is the part of the connection's branch state that the hold-timeout checker reads while the
+// connection is in use by its statement
+type xaHoldState struct {
+	lock       sync.Mutex
+	inPhaseOne bool
+	preparedAt time.Time
+}
+
+func (h *xaHoldState) enterPhaseOne() {
+	h.lock.Lock()
+	h.inPhaseOne = true
+	h.lock.Unlock()
+}
+
+func (h *xaHoldState) leavePhaseOne(preparedAt time.Time) {
+	h.lock.Lock()
+	h.inPhaseOne = false
+	h.preparedAt = preparedAt
+	h.lock.Unlock()
+}
+
+// expired tells whether the connection has been waiting for phase two for longer than hold
+func (h *xaHoldState) expired(hold time.Duration) bool {
+	h.lock.Lock()
+	defer h.lock.Unlock()
+	return !h.inPhaseOne && time.Since(h.preparedAt) > hold
 }
